@@ -548,7 +548,7 @@ impl Report {
                         cases: per.min(u32::MAX as u64) as u32,
                         failure_persistence: None,
                         rng_seed: RngSeed::Fixed(seed),
-                        max_shrink_iters: 20_000,
+                        max_shrink_iters: std::env::var("VERIF_MAX_SHRINK").ok().and_then(|v| v.parse().ok()).unwrap_or(20_000),
                         max_global_rejects: 64,
                         verbose: 0,
                         ..Config::default()
